@@ -225,7 +225,7 @@ class C03(core.Check):
                 progs.append((r.choice(["std", "std", "adv"]), [r.choice(API_OPS) for _ in range(r.randrange(3, 13))]))
             tools = None
             subset = None
-            if (i % (8 if self.quick else 3)) == 0:
+            if (i % (8 if self.quick else 3)) == 0 or desc.startswith(("grid:chunk", "edge:", "c13:valid")):
                 tools = ctx["tools"]
             out.append({"desc": desc, "data": core.b64(data), "good": core.b64(self.good), "progs": progs, "zh": ctx["zh"], "tools": tools, "tool_subset": subset})
         return out
